@@ -15,9 +15,11 @@ func VerifC20_v1_priority() {
 	in3 := make(chan int, J)
 	out := make(chan Prioritized[int], 1)
 	fb := make(chan uint, 1)
+	inputs := map[uint]<-chan int{2: in1, 1: in2}
 	d, err := New(Opts[int]{Divider: FairDivider, Feedback: fb, HandlersQuantity: H,
-		Inputs: map[uint]<-chan int{2: in1, 1: in2}, Output: out})
+		Inputs: inputs, Output: out})
 	vAssume(err == nil)
+	vTouchW(inputs) // the options are the caller's: once New has returned it may reuse the map it passed
 	vRole("handler")
 	vRole("creator")
 	vRole("control")
